@@ -152,7 +152,10 @@ def probe(w, started):
     for r in reqs:
         r["root_published_step"] = pub_step.get(r["root"])
     err_uids = {o["uid"] for o in log if o["kind"] == "publish" and o["queues"] and str(o["queues"][0]).startswith("asl_workflow_reply_to") and b"errorType" in o["body"]}
-    replies = {o["correlation_id"]: o["step"] for o in log if o["kind"] == "deliver" and str(o["queue"]).startswith("asl_workflow_reply_to") and o["uid"] in err_uids}
+    replies = {}
+    for o in log:
+        if o["kind"] == "deliver" and str(o["queue"]).startswith("asl_workflow_reply_to") and o["uid"] in err_uids:
+            replies.setdefault(o["correlation_id"], o["step"])       # the first delivery: a worker that answers twice sends a second (orphaned) reply later
     # messages whose delivery happened at a later virtual instant than their publication (the schedule let time pass while they were in flight) or never happened
     pub_t = {o["uid"]: o["t"] for o in log if o["kind"] == "publish" and o["queues"]}     # state events (a Task entered late has less of its TimeoutSeconds left), task requests and their replies
     late = sum(1 for o in log if o["kind"] == "deliver" and o["uid"] in pub_t and o["t"] - pub_t[o["uid"]] > 0.5)
